@@ -321,6 +321,17 @@ func (x *LabelExec) Apply(op drv.Op) (handled bool, v *drv.Violation, err error)
 			}
 			w.Stats.Probe("subblock-supervoxel")
 		}
+		if r.IntN(8) == 0 { // one block of pure background inside the box
+			bx, by, bz := r.IntN(nb[0]), r.IntN(nb[1]), r.IntN(nb[2])
+			for z := 0; z < g.B; z++ {
+				for y := 0; y < g.B; y++ {
+					for xx := 0; xx < g.B; xx++ {
+						data[((bz*g.B+z)*dims[1]+by*g.B+y)*dims[0]+bx*g.B+xx] = 0
+					}
+				}
+			}
+			w.Stats.Probe("all-background-block-written")
+		}
 		url := x.boxURL(op.V, b0, nb)
 		if op.Op == "mutate" {
 			url += "?mutate=true"
